@@ -35,22 +35,22 @@ type Engine interface {
 // Replay is the replay file: everything needed to re-execute one failing run
 // exactly (no PRNG involved).
 type Replay struct {
-	Engine    string          `json:"engine"`
-	Property  string          `json:"property"`
-	Sig       string          `json:"sig"`
-	Msg       string          `json:"msg"`
-	Seed      uint64          `json:"seed"`
-	Iter      uint64          `json:"iter"`
-	Profile   string          `json:"profile"`
-	Plan      json.RawMessage `json:"plan"`
-	Tape      *Tape           `json:"tape"`
-	OrigOps   int             `json:"orig_ops"`
-	OrigTape  int             `json:"orig_tape_nonzero"`
-	ShrunkOps int             `json:"shrunk_ops"`
-	ShrunkTape int            `json:"shrunk_tape_nonzero"`
-	ShrinkTries int           `json:"shrink_tries"`
-	Counters  map[string]int  `json:"counters,omitempty"`
-	Log       []string        `json:"log,omitempty"`
+	Engine      string          `json:"engine"`
+	Property    string          `json:"property"`
+	Sig         string          `json:"sig"`
+	Msg         string          `json:"msg"`
+	Seed        uint64          `json:"seed"`
+	Iter        uint64          `json:"iter"`
+	Profile     string          `json:"profile"`
+	Plan        json.RawMessage `json:"plan"`
+	Tape        *Tape           `json:"tape"`
+	OrigOps     int             `json:"orig_ops"`
+	OrigTape    int             `json:"orig_tape_nonzero"`
+	ShrunkOps   int             `json:"shrunk_ops"`
+	ShrunkTape  int             `json:"shrunk_tape_nonzero"`
+	ShrinkTries int             `json:"shrink_tries"`
+	Counters    map[string]int  `json:"counters,omitempty"`
+	Log         []string        `json:"log,omitempty"`
 }
 
 type ViolationRec struct {
@@ -65,42 +65,43 @@ type ViolationRec struct {
 
 // Fragment is what one worker process reports to the driver.
 type Fragment struct {
-	Engine      string            `json:"engine"`
-	Profile     string            `json:"profile"`
-	Property    string            `json:"property"`
-	Seed        uint64            `json:"seed"`
-	Runs        int               `json:"runs"`
-	RunsConc    int               `json:"runs_concurrent"`
-	Relevant    int               `json:"relevant_runs"`
-	Nontrivial  int               `json:"nontrivial_runs"`
-	WallS       float64           `json:"wall_s"`
-	SimNanos    int64             `json:"sim_ns"`
-	Steps       int64             `json:"steps"`
-	Switches    int64             `json:"switches"`
-	Counters    map[string]int    `json:"counters"`
-	Violations  []ViolationRec    `json:"violations"`
-	OtherProps  map[string]int    `json:"aborted_by"`
-	OtherSigs   map[string]int    `json:"other_sigs"`
-	Harness     []string          `json:"harness"`
-	Samples     []json.RawMessage `json:"samples"`
-	FPFile      string            `json:"fp_file"`
-	StateFile   string            `json:"state_file"`
-	Strategies  map[string]int    `json:"strategies"`
+	Engine     string            `json:"engine"`
+	Profile    string            `json:"profile"`
+	Property   string            `json:"property"`
+	Seed       uint64            `json:"seed"`
+	Runs       int               `json:"runs"`
+	RunsConc   int               `json:"runs_concurrent"`
+	Relevant   int               `json:"relevant_runs"`
+	Nontrivial int               `json:"nontrivial_runs"`
+	WallS      float64           `json:"wall_s"`
+	SimNanos   int64             `json:"sim_ns"`
+	Steps      int64             `json:"steps"`
+	Switches   int64             `json:"switches"`
+	Counters   map[string]int    `json:"counters"`
+	Violations []ViolationRec    `json:"violations"`
+	OtherProps map[string]int    `json:"aborted_by"`
+	OtherSigs  map[string]int    `json:"other_sigs"`
+	Harness    []string          `json:"harness"`
+	Samples    []json.RawMessage `json:"samples"`
+	FPFile     string            `json:"fp_file"`
+	StateFile  string            `json:"state_file"`
+	Strategies map[string]int    `json:"strategies"`
 }
 
 type WorkerCfg struct {
-	Profile   string
-	Property  string
-	Seed      uint64
-	Budget    time.Duration
-	MaxRuns   int
-	ConcPct   int // percentage of runs in concurrent mode
-	Out       string
-	ReplayDir string
-	Avoid     map[string]bool // generator avoidance switches
-	KnownSigs map[string]bool // signatures already listed: do not shrink them again
+	Profile      string
+	Property     string
+	Seed         uint64
+	Budget       time.Duration
+	MaxRuns      int
+	ConcPct      int // percentage of runs in concurrent mode
+	Out          string
+	ReplayDir    string
+	Avoid        map[string]bool // generator avoidance switches
+	KnownSigs    map[string]bool // signatures already listed: do not shrink them again
 	ShrinkBudget time.Duration
-	FPCap     int
+	FPCap        int
+	race         *RaceWatcher
 }
 
 func getenv(k, d string) string {
@@ -151,6 +152,7 @@ func RunWorker(t *testing.T, eng Engine, cfg WorkerCfg) *Fragment {
 	fps := map[uint64]struct{}{}
 	states := map[uint64]struct{}{}
 	seenSig := map[string]*ViolationRec{}
+	rw := NewRaceWatcher()
 	fmt.Printf("worker engine=%s profile=%s property=%s VERIF_SEED=%d budget=%v\n", eng.Name(), cfg.Profile, cfg.Property, cfg.Seed, cfg.Budget)
 	for iter := uint64(0); ; iter++ {
 		if cfg.MaxRuns > 0 && fr.Runs >= cfg.MaxRuns {
@@ -164,6 +166,9 @@ func RunWorker(t *testing.T, eng Engine, cfg WorkerCfg) *Fragment {
 		plan := eng.Generate(r, cfg.Profile, conc, cfg.Avoid)
 		src := NewSearch(eng.Strategy(plan, r))
 		res := eng.Run(t, plan, src, false)
+		if rw != nil {
+			rw.Check(res)
+		}
 		fr.Runs++
 		if conc {
 			fr.RunsConc++
@@ -229,6 +234,7 @@ func RunWorker(t *testing.T, eng Engine, cfg WorkerCfg) *Fragment {
 			continue
 		}
 		// Shrink and write the replay file.
+		cfg.race = rw
 		rp := ShrinkAndWrite(t, eng, plan, res, *v, cfg, iter)
 		rec.Replay = rp
 		fmt.Printf("found %s seed=%d iter=%d replay=%s\n", v.Sig, cfg.Seed, iter, rp)
@@ -268,6 +274,9 @@ func ShrinkAndWrite(t *testing.T, eng Engine, plan Plan, res *Result, v Violatio
 		Simplify: eng.Simplify,
 		Run: func(c Candidate[Plan]) bool {
 			r := eng.Run(t, c.Plan, NewReplay(c.Tape), false)
+			if rw := cfg.race; rw != nil {
+				rw.Check(r)
+			}
 			if r.Harness != "" {
 				return false
 			}
@@ -289,6 +298,9 @@ func ShrinkAndWrite(t *testing.T, eng Engine, plan Plan, res *Result, v Violatio
 	}
 	min := sh.Shrink(orig)
 	final := eng.Run(t, min.Plan, NewReplay(min.Tape), true)
+	if cfg.race != nil {
+		cfg.race.Check(final)
+	}
 	msg := v.Msg
 	for _, x := range final.Violations {
 		if x.Sig == v.Sig {
@@ -326,6 +338,9 @@ func RunReplay(t *testing.T, eng Engine, path string, log bool) (bool, *Result, 
 		return false, nil, &rp, err
 	}
 	res := eng.Run(t, plan, NewReplay(rp.Tape), log)
+	if rw := NewRaceWatcher(); rw != nil {
+		rw.Check(res)
+	}
 	for _, v := range res.Violations {
 		if v.Sig == rp.Sig {
 			return true, res, &rp, nil
